@@ -49,6 +49,11 @@ theorem attachFile_sim (fs : HostFs) (nd : Bool) (arg : Bytes) (st st' : MainSta
         · split
           · simp [SimR]
           · exact ⟨rfl, rfl, rfl, rfl⟩
+      · split
+        · simp [SimR]
+        · split
+          · simp [SimR]
+          · exact ⟨rfl, rfl, rfl, rfl⟩
 
 theorem optLoop_sim (fs : HostFs) (nd : Bool) (opts : List Opt) (st st' : MainState) (h : Sim st st') :
     SimR (optLoop fs nd opts st) (optLoop fs nd opts st') := by
@@ -383,8 +388,8 @@ def NAa : Attach → Prop
   | .abort _ => False
   | _ => True
 
-theorem imageViews_nd (name : Bytes) (m : Media) (ld : Loader) :
-    NAa (imageViews name m ld false) → imageViews name m ld true = imageViews name m ld false := by
+theorem imageViews_nd (name : Bytes) (hf : HostFile) (m : Media) (ld : Loader) :
+    NAa (imageViews name hf m ld false) → imageViews name hf m ld true = imageViews name hf m ld false := by
   cases ld with
   | nonInterleaved =>
     simp only [imageViews]
@@ -439,6 +444,26 @@ theorem cfgs_nd (m : Media) (idx : Nat) (views : List View) :
       | error e => intro ih h; rw [ih h]
       | ok r => intro ih _; rw [ih trivial]
 
+theorem fcfgs_nd (idx k : Nat) (sides : List (View × Media)) :
+    NC (attachFile.fcfgs false idx k sides) → attachFile.fcfgs true idx k sides = attachFile.fcfgs false idx k sides := by
+  induction sides generalizing k with
+  | nil => intro _; simp [attachFile.fcfgs]
+  | cons p vs ih =>
+    obtain ⟨v, sm⟩ := p
+    simp only [attachFile.fcfgs]
+    have hc := identifyFileSystem_nd (v.readBlock sm) v.geom false
+    revert hc
+    cases identifyFileSystem (v.readBlock sm) v.geom false false with
+    | abort s => simp
+    | err e => intro hc; rw [hc trivial]; simp
+    | ok b =>
+      intro hc; rw [hc trivial]; simp only []
+      have ih' := ih (k + 1)
+      revert ih'
+      cases attachFile.fcfgs false idx (k + 1) vs with
+      | error e => intro ih h; rw [ih h]
+      | ok r => intro ih _; rw [ih trivial]
+
 theorem attachFile_nd (fs : HostFs) (arg : Bytes) (st : MainState) :
     NC (attachFile fs false arg st) → attachFile fs true arg st = attachFile fs false arg st := by
   unfold attachFile
@@ -448,18 +473,25 @@ theorem attachFile_nd (fs : HostFs) (arg : Bytes) (st : MainState) :
     · simp
     · simp
     · simp only []
-      generalize hiv : imageViews arg _ _ false = ivf
+      generalize hiv : imageViews arg _ _ _ false = ivf
       cases ivf with
       | abort s => intro h; cases h
-      | fail => rw [imageViews_nd arg _ _ (by rw [hiv]; trivial), hiv]; simp
-      | unmodelled w => rw [imageViews_nd arg _ _ (by rw [hiv]; trivial), hiv]; simp
+      | fail => rw [imageViews_nd arg _ _ _ (by rw [hiv]; trivial), hiv]; simp
+      | unmodelled w => rw [imageViews_nd arg _ _ _ (by rw [hiv]; trivial), hiv]; simp
       | ok views warned =>
-        rw [imageViews_nd arg _ _ (by rw [hiv]; trivial), hiv]
+        rw [imageViews_nd arg _ _ _ (by rw [hiv]; trivial), hiv]
         simp only []
         generalize hcf : attachFile.cfgs false _ _ views = cf
         cases cf with
         | error e => intro h; rw [cfgs_nd _ _ _ (by rw [hcf]; exact h), hcf]
         | ok ds => intro _; rw [cfgs_nd _ _ _ (by rw [hcf]; trivial), hcf]
+      | flux sides noise =>
+        rw [imageViews_nd arg _ _ _ (by rw [hiv]; trivial), hiv]
+        simp only []
+        generalize hcf : attachFile.fcfgs false _ _ sides = cf
+        cases cf with
+        | error e => intro h; rw [fcfgs_nd _ _ _ (by rw [hcf]; exact h), hcf]
+        | ok ds => intro _; rw [fcfgs_nd _ _ _ (by rw [hcf]; trivial), hcf]
 
 theorem optLoop_nd (fs : HostFs) (opts : List Opt) (st : MainState) :
     NC (optLoop fs false opts st) → optLoop fs true opts st = optLoop fs false opts st := by
